@@ -4,6 +4,7 @@ usage: tools/seedprep.py <round number> <clauses.json>   (clauses.json: {"C01": 
 import json, os, re, subprocess, sys
 V = os.path.dirname(os.path.dirname(os.path.abspath(__file__)))
 n, clauses = sys.argv[1], json.load(open(sys.argv[2]))
+NO_AVOID = "--no-avoid" in sys.argv
 base = "/tmp/seed%s" % n
 os.makedirs(base, exist_ok=True)
 T = open(os.path.join(V, "tools", "seed_prompt_template.txt")).read()
@@ -20,5 +21,5 @@ for l in open(os.path.join(V, "properties.jsonl")):
     wt = os.path.join(base, i)
     if not os.path.isdir(wt):
         subprocess.check_call(["git", "-C", "/repo", "worktree", "add", "-q", "--detach", wt, "HEAD"])
-    open(os.path.join(base, "prompt_%s.txt" % i), "w").write(T.replace("__WT__", wt).replace("__AVOID__", ", ".join(sorted(used))).replace("__CLAUSE__", clauses[i]).replace("__PROP__", json.dumps(d, indent=1)))
+    open(os.path.join(base, "prompt_%s.txt" % i), "w").write(T.replace("__WT__", wt).replace("__AVOID__", "(no restriction this time)" if NO_AVOID else ", ".join(sorted(used))).replace("__CLAUSE__", clauses[i]).replace("__PROP__", json.dumps(d, indent=1)))
 print("prepared", len(clauses), "in", base)
